@@ -8,9 +8,16 @@ CONSTANTS
   LemmaN = 4
   LemmaL = 2
   LoopN = 4
+  ExtraLen = 3
+  HistRows = 3
+  Hist2Rows = 2
+  GHistN = 4
+  GHist2N = 3
 INVARIANT InvSeg
 INVARIANT InvIdx
 INVARIANT InvGraph
 INVARIANT InvLemma
 INVARIANT InvLoop
+INVARIANT InvHist
+INVARIANT InvGHist
 CHECK_DEADLOCK FALSE
